@@ -54,17 +54,54 @@ class Case:
         self.instr_src = c05_instr.instrument(self.fn, self.ser)
         f = c05_instr.compile_instr(self.instr_src)
         self.runs, self.runs_exhausted = c05_instr.decision_vectors(f, dec_len, dec_runs)
+        # every nested function / method whose graph the same cfg.build call returned is executed too (its own copy)
+        self.sub_runs = {}
+        for node in ast.walk(self.fn):
+            if type(node) is ast.FunctionDef and node is not self.fn:
+                sid = self.ser.id_of(node)
+                if sid in self.real.graphs:
+                    try:
+                        sf = c05_instr.compile_instr(c05_instr.instrument(node, self.ser))
+                    except c05_instr.Unsupported:
+                        continue
+                    self.sub_runs[sid] = c05_instr.decision_vectors(sf, dec_len, min(dec_runs, 12))[0]
+
+    def subgraph_failures(self):
+        """every graph of the returned dict belongs to its own function: the entry is the function's first node (its
+        arguments, after the lambdas in their defaults) and the index holds only nodes of that function's own subtree"""
+        bad = []
+        for fid, g in sorted(self.real.graphs.items()):
+            node = self.ser.nodes.get(fid)
+            if node is None or not hasattr(node, 'args'):
+                continue
+            own = {self.ser.id_of(n) for n in ast.walk(node)}
+            first = (c05_instr.kid_lams(node.args, self.ser) + [self.ser.id_of(node.args)])[0]
+            if g['entry'] != first:
+                bad.append('graph of %s: entry is %s, not the first node of the function %s' % (self.label(fid), self.label(g['entry']), self.label(first)))
+            foreign = [i for i in g['nodes'] if i not in own]
+            if foreign:
+                bad.append('graph of %s: its index contains nodes outside the function: %s' % (self.label(fid), [self.label(i) for i in foreign[:4]]))
+        return bad
 
     def path_failures(self):
-        """direct oracle: every probe trace is a path entry -> exit/error of the REAL graph"""
+        """direct oracle: every probe trace is a path entry -> exit/error of the REAL graph (the function's own graph, and
+        for every nested function the graph the same cfg.build call returned for it)"""
         g = self.real.graphs.get(self.ser.id_of(self.fn))
         if g is None:
             return [('no graph for the function', None)]
+        bad = [(w, d, None) for w, d in self._trace_failures(g, self.runs, '')]
+        for sid, runs in sorted(getattr(self, 'sub_runs', {}).items()):
+            # the class of such a failure is judged on the nested function taken as a root
+            bad += [(w, None, ast.unparse(self.ser.nodes[sid]))
+                    for w, _ in self._trace_failures(self.real.graphs[sid], runs, 'nested function %s: ' % self.label(sid))[:2]]
+        return bad
+
+    def _trace_failures(self, g, runs, prefix):
         edges = {tuple(e) for e in g['edges']}
         final = set(g['exits']) | set(g['errors'])
         nodes = set(g['nodes'])
         bad = []
-        for dec, trace, outcome, consumed, _wdec in self.runs:
+        for dec, trace, outcome, consumed, _wdec in runs:
             why = None
             if not trace or trace[0] != g['entry']:
                 why = 'trace does not start at the entry node'
@@ -78,7 +115,7 @@ class Case:
                 if why is None and not set(trace) <= nodes:
                     why = 'executed node missing from the graph index'
             if why:
-                bad.append((why, dec))
+                bad.append((prefix + why + (' (decisions %s)' % dec if prefix else ''), dec))
         return bad
 
     def label(self, i):
@@ -164,6 +201,8 @@ def process(cases, driver_ok, execute, dec_len=0, dec_runs=0):
             for why in c05_real.stmt_edge_failures(c.real)[:2]:
                 st['fails'].append({'what': 'statement-level edges disagree with the node graph: ' + why,
                                     'case': {'source': c.source, 'key': c.key}, 'pred': None})
+            for why in c.subgraph_failures()[:2]:
+                st['fails'].append({'what': why, 'case': {'source': c.source, 'key': c.key}, 'pred': None})
             if c.real.unknown_nodes:
                 broken(st, 'correspondence:c05.graph', '%s: graph node outside the serialised AST' % c.key)
             g = c.real.graphs.get(fid)
@@ -183,9 +222,9 @@ def process(cases, driver_ok, execute, dec_len=0, dec_runs=0):
                     st['runs_exhaustive'] += 1
                 for _, _, o, _, _ in c.runs:
                     st['run_outcomes'][o] = st['run_outcomes'].get(o, 0) + 1
-                for why, dec in c.path_failures():
+                for why, dec, sub in c.path_failures():
                     st['fails'].append({'what': why, 'case': {'source': c.source, 'key': c.key, 'decisions': dec},
-                                        'pred': 'path'})
+                                        'pred': 'path', 'cls_source': sub})
         if driver_ok:
             lines.append('c05.graph ' + c.text); plan.append(('graph', c))
             lines.append('c05.hyp ' + c.text); plan.append(('hyp', c))
@@ -286,7 +325,7 @@ def process(cases, driver_ok, execute, dec_len=0, dec_runs=0):
     if st['fails'] and driver_ok:
         todo = [f for f in st['fails'] if f['pred'] == 'path']
         if todo:
-            srcs = [f['case']['source'] for f in todo]
+            srcs = [f.pop('cls_source', None) or f['case']['source'] for f in todo]
             texts = [pyast.Ser(ast.parse(s).body[0]).text() for s in srcs]
             for f, k in zip(todo, _drive(['c05.class ' + t for t in texts])):
                 f['cls'] = k if k != 'none' else None
@@ -315,7 +354,8 @@ def _family_worker(args):
     idxs, driver_ok, dec_len, dec_runs = args[:4]
     which = args[4] if len(args) > 4 else 'nested-try'
     sys.path.insert(0, common.REPO)
-    fam = {'nested-try': c05_gen.nested_try_family, 'raise-handler': c05_gen.raise_handler_family, 'leaf-kind': c05_gen.leaf_kind_family}[which]()
+    fam = {'nested-try': c05_gen.nested_try_family, 'raise-handler': c05_gen.raise_handler_family, 'leaf-kind': c05_gen.leaf_kind_family,
+           'local-class': c05_gen.local_class_family}[which]()
     cases = [Case('%s-%d' % (which, i), c05_gen.render(fam[i])) for i in idxs]
     st = process(cases, driver_ok, True, dec_len, dec_runs)
     st['fails'] = st['fails'][:40]
@@ -387,7 +427,7 @@ def check(run):
     run.rule = ('programs: every FunctionDef of /repo (graphs only) + control skeletons enumerated in canonical order '
                 '(all nestings of if/while/for(+else)/with/try-except-else-finally/break/continue/return/raise/nested def, '
                 'rich mode adds lambdas/class/return-lambda leaves; jumps only where legal; dead code included) up to a '
-                '[plus the targeted exhaustive families c05_gen.nested_try_family (try statements nested inside finally/handler/else parts of another try) c05_gen.leaf_kind_family (every simple-statement kind in every statement position of the small skeletons) and c05_gen.raise_handler_family (nested trys with bare/Exception/BaseException/class/tuple handlers and raises of ordinary and BaseException-only classes)] '
+                '[plus the targeted exhaustive families c05_gen.nested_try_family (try statements nested inside finally/handler/else parts of another try) c05_gen.local_class_family (local classes with methods / control flow / nested classes followed by nested defs and lambdas; every sub-graph of the returned dict is checked), c05_gen.leaf_kind_family (every simple-statement kind in every statement position of the small skeletons) and c05_gen.raise_handler_family (nested trys with bare/Exception/BaseException/class/tuple handlers and raises of ordinary and BaseException-only classes)] '
                 'statement and depth bound, exhaustive below the bound, stride-sampled (seed-derived offset) above the cap; '
                 'per program the decision tree of the instrumented copy is enumerated depth-first up to a length/run bound. '
                 'A case is a (program) or (program, decision vector); non-trivial = the function graph has more than 2 nodes')
@@ -481,6 +521,16 @@ def check(run):
                                                                    'pc_ok', 'pc_rejected_expected', 'runs_exhaustive', 'run_outcomes')}, size=nfam, exhaustive=True)
         merge_stats(total, dict(st, fails=[]))
 
+        # ---- targeted exhaustive family: local classes followed by nested defs / lambdas (several builders live in one cfg.build call)
+        nfam = len(c05_gen.local_class_family())
+        st = new_stats()
+        for r in pool.map(_family_worker, [(list(range(k, nfam, 32)), run.driver_ok, cfg['dec_len'], cfg['dec_runs'], 'local-class') for k in range(32)]):
+            merge_stats(st, r)
+        absorb(run, st, 'local-class')
+        run.cov['local_class_family'] = dict({k: st[k] for k in ('programs', 'graphs', 'graph_equal', 'both_error', 'runs', 'walk_equal',
+                                                                 'wf_ok', 'pc_ok', 'runs_exhaustive')}, size=nfam, exhaustive=True)
+        merge_stats(total, dict(st, fails=[]))
+
         # ---- targeted exhaustive family: every leaf kind in every statement position of the small skeletons
         nfam = len(c05_gen.leaf_kind_family())
         st = new_stats()
@@ -567,7 +617,7 @@ def replay(run, path):
         tr, out, consumed, _, taken, wtaken = c05_instr.run(f, decs[0])
         c.runs = [(taken, tr, out, consumed, wtaken)]
     bad = c.path_failures()
-    for why, dec in bad[:5]:
+    for why, dec, _sub in bad[:5]:
         print('FAILS decisions=%s: %s' % (dec, why))
     for dec, tr, out, _, _ in c.runs[:3]:
         print('run', dec, out, [c.label(i) for i in tr])
